@@ -5,7 +5,7 @@
 (* comparison and re-synchronisation.  No variables: shared by the         *)
 (* monitor (MintTrace) and the linearizability search (MintAccept).        *)
 (***************************************************************************)
-EXTENDS MintAPI
+EXTENDS MintAPI, Http
 
 -----------------------------------------------------------------------------
 (* property attribution of refusal causes                                   *)
@@ -250,8 +250,21 @@ JudgeMalformed(Sx, e) ==
             THEN {<<"C20", "malformed-request-not-answered-400-detail-code:" \o e.a.target \o ":" \o e.a.cls>>} ELSE {}),
     {Sx})
 
+\* the causes of refusal that hold for a recorded request (for the error-code check of C20)
+CausesOf(Sx, e) ==
+  CASE e.ev = "swap" -> SwapCauses(Sx, e.a)
+    [] e.ev = "mint" -> MintCauses(Sx, e.a)
+    [] e.ev = "melt" -> MeltCauses(Sx, e.a)
+    [] e.ev = "mintquote" -> MintQuoteCauses(Sx, e.a, Balance(Sx))
+    [] e.ev = "meltquote" -> MeltQuoteCauses(Sx, e.a)
+    [] e.ev = "pollmint" -> IF e.a.q \in DOMAIN Sx.mq THEN (IF Sx.mq[e.a.q].st = "UNPAID" /\ e.a.lnerr THEN {"lnerr"} ELSE {}) ELSE {"noquote"}
+    [] e.ev = "pollmelt" -> IF e.a.q \in DOMAIN Sx.lq THEN {} ELSE {"noquote"}
+    [] OTHER -> {}
+
 Judge(Sx, e) ==
   CASE e.ev = "swap" -> JudgeSwap(Sx, e)
+    [] e.ev = "replay" -> J(ReplayTags(e) \cup (IF e.r.panic THEN {<<"C06", "panic:replay">>} ELSE {}), {Sx})
+    [] e.ev = "keyshape" -> J(IF e.r.shape = "ok" THEN {} ELSE {<<"C20", "keys-or-info-shape:" \o e.r.shape>>}, {Sx})
     [] e.ev = "malformed" -> JudgeMalformed(Sx, e)
     [] e.ev = "crash" -> JudgeCrash(Sx, e)
     [] e.ev = "mintquote" -> JudgeMintQuote(Sx, e)
